@@ -4,9 +4,10 @@ package vptree
 // coordinates (duplicates and equidistant points are solver branches), with
 // every vantage choice the random source can make (rand.IntN is an arbitrary
 // value of its contract), answers Nearest / NearestSet queries for a symbolic
-// query exactly like a brute-force scan. Distances are Euclidean (sqrt): in the
-// exact-real model sqrt(x) is the r >= 0 with r*r == x, and the oracle
-// compares SQUARED distances.
+// query exactly like a brute-force scan. Two metrics: the package's Point
+// (Euclidean, sqrt: in the exact-real model sqrt(x) is the r >= 0 with
+// r*r == x, and the oracle compares SQUARED distances) and a harness-side
+// Manhattan metric (piecewise linear, so larger point sets are affordable).
 
 // verifC20VPPoints: points p_i = q + u_i with q and u_i symbolic (a bijective
 // reparametrisation of independent coordinates under which the solver's
@@ -45,7 +46,7 @@ func (s *verifC20VPSrc) Uint64() uint64 {
 	return verifUint64("rnd" + string(rune('0'+s.k)))
 }
 
-func verifC20VPDist2(p, q Point) float64 {
+func verifC20VPDist2(p, q []float64) float64 {
 	var s float64
 	for i := range p {
 		s += (p[i] - q[i]) * (p[i] - q[i])
@@ -53,10 +54,40 @@ func verifC20VPDist2(p, q Point) float64 {
 	return s
 }
 
-func verifC20VPSame(a, b Point) bool { return &a[0] == &b[0] }
+func verifC20VPSame(a, b []float64) bool { return &a[0] == &b[0] }
 
-func verifC20VPStored(c Comparable, pts []Point) bool {
-	p, ok := c.(Point)
+// verifC20L1 is a harness-side Comparable: points of R^dim under the
+// Manhattan metric |dx|+|dy|. It satisfies the four metric axioms the
+// Comparable documentation demands, so everything the tree promises must hold
+// for it, and its distance is piecewise LINEAR (no sqrt, no squares), which
+// keeps the solver in linear real arithmetic.
+type verifC20L1 []float64
+
+func (p verifC20L1) Distance(c Comparable) float64 {
+	return verifC20VPManhattan(p, c.(verifC20L1))
+}
+
+func verifC20VPManhattan(p, q []float64) float64 {
+	var s float64
+	for i := range p {
+		d := p[i] - q[i]
+		s += verifIteF(d < 0, -d, d)
+	}
+	return s
+}
+
+func verifC20VPCoords(c Comparable) ([]float64, bool) {
+	switch v := c.(type) {
+	case Point:
+		return v, true
+	case verifC20L1:
+		return v, true
+	}
+	return nil, false
+}
+
+func verifC20VPStored(c Comparable, pts [][]float64) bool {
+	p, ok := verifC20VPCoords(c)
 	if !ok {
 		return false
 	}
@@ -67,27 +98,80 @@ func verifC20VPStored(c Comparable, pts []Point) bool {
 	return is
 }
 
-func verifC20VPSetup() (n, dim int, pts []Point, q Point, t *Tree) {
-	n = verifChoose("n", verifParam("vpnmin", 1), verifParam("vpn", 3))
-	dim = verifChoose("dim", verifParam("vpdimmin", 1), verifParam("vpdim", 2))
-	q = make(Point, dim)
-	for d := range q {
-		q[d] = verifFloat("q" + string(rune('x'+d)))
-	}
-	cs, pts := verifC20VPPoints(n, dim, q)
-	// src == nil: the package-level rand.IntN, which the engine models as an
-	// arbitrary value of its contract (cheaper than the symbolic Source below).
-	t, err := New(cs, verifParam("vpeffort", 1), nil)
-	verifAssert(err == nil, "New succeeds for finite points")
-	verifAssert(t != nil, "New returns a tree")
-	return n, dim, pts, q, t
+// verifC20VPCase is one explored configuration: the points (as coordinates),
+// the query, the tree, and the metric in "key" form: key(d) maps a distance
+// reported by the tree to the scale of brute(p), the oracle's distance from p
+// to the query (squared Euclidean for Point, Manhattan for verifC20L1).
+type verifC20VPCase struct {
+	n   int
+	l1  bool
+	pts [][]float64
+	q   []float64
+	qc  Comparable
+	t   *Tree
 }
 
-// verifC20VPSorted: squared brute-force distances in ascending order (branch-free network).
-func verifC20VPSorted(pts []Point, q Point) []float64 {
-	d := make([]float64, len(pts))
-	for i, p := range pts {
-		d[i] = verifC20VPDist2(p, q)
+func (c *verifC20VPCase) key(d float64) float64 {
+	if c.l1 {
+		return d
+	}
+	return d * d
+}
+
+func (c *verifC20VPCase) brute(p []float64) float64 {
+	if c.l1 {
+		return verifC20VPManhattan(p, c.q)
+	}
+	return verifC20VPDist2(p, c.q)
+}
+
+func verifC20VPSetup(l1, query, symsrc bool) *verifC20VPCase {
+	c := &verifC20VPCase{l1: l1}
+	c.n = verifChoose("n", verifParam("vpnmin", 1), verifParam("vpn", 3))
+	dim := verifChoose("dim", verifParam("vpdimmin", 1), verifParam("vpdim", 2))
+	var q Point
+	if query {
+		q = make(Point, dim)
+		for d := range q {
+			q[d] = verifFloat("q" + string(rune('x'+d)))
+		}
+		c.q = q
+		c.qc = q
+		if l1 {
+			c.qc = verifC20L1(q)
+		}
+	}
+	cs, ps := verifC20VPPoints(c.n, dim, q)
+	for i := range ps {
+		c.pts = append(c.pts, ps[i])
+		if l1 {
+			cs[i] = verifC20L1(ps[i])
+		}
+	}
+	var src *verifC20VPSrc
+	var t *Tree
+	var err error
+	if symsrc || verifParam("vpsrc", 0) == 1 {
+		// symbolic rand.Source: reproducible in a native replay, dearer for the solver
+		src = &verifC20VPSrc{max: c.n}
+		t, err = New(cs, verifParam("vpeffort", 1), src)
+	} else {
+		// src == nil: the package-level rand.IntN, which the engine models as an
+		// arbitrary value of its contract.
+		t, err = New(cs, verifParam("vpeffort", 1), nil)
+	}
+	verifAssert(err == nil, "New succeeds for finite points")
+	verifAssert(t != nil, "New returns a tree")
+	verifAssert(t.Len() == c.n, "Len is the number of points")
+	c.t = t
+	return c
+}
+
+// sorted: brute-force distances (key scale) in ascending order (branch-free network).
+func (c *verifC20VPCase) sorted() []float64 {
+	d := make([]float64, len(c.pts))
+	for i, p := range c.pts {
+		d[i] = c.brute(p)
 	}
 	for pass := 0; pass < len(d); pass++ {
 		for i := pass % 2; i+1 < len(d); i += 2 {
@@ -100,91 +184,108 @@ func verifC20VPSorted(pts []Point, q Point) []float64 {
 	return d
 }
 
-func VerifC20_VPNearest() {
-	n, _, pts, q, t := verifC20VPSetup()
-	verifAssert(t.Len() == n, "Len is the number of points")
-	got, dist := t.Nearest(q)
-	verifAssert(verifC20VPStored(got, pts), "Nearest returns one of the stored points")
+func verifC20VPNearest(l1 bool) {
+	c := verifC20VPSetup(l1, true, false)
+	got, dist := c.t.Nearest(c.qc)
+	verifAssert(verifC20VPStored(got, c.pts), "Nearest returns one of the stored points")
 	verifAssert(dist >= 0, "the reported distance is non-negative")
-	if gp, ok := got.(Point); ok {
-		verifAssertEqF(dist*dist, verifC20VPDist2(gp, q), "Nearest reports the distance of the point it returns")
+	if gp, ok := verifC20VPCoords(got); ok {
+		verifAssertEqF(c.key(dist), c.brute(gp), "Nearest reports the distance of the point it returns")
 	}
-	for _, p := range pts {
-		verifAssert(dist*dist <= verifC20VPDist2(p, q), "Nearest distance is minimal over all points")
+	for _, p := range c.pts {
+		verifAssert(c.key(dist) <= c.brute(p), "Nearest distance is minimal over all points")
 	}
 	verifReach("end")
 }
 
-func verifC20VPKept(h Heap, want int, pts []Point, q Point) {
+func VerifC20_VPNearest()   { verifC20VPNearest(false) }
+func VerifC20_VPNearestL1() { verifC20VPNearest(true) }
+
+func (c *verifC20VPCase) kept(h Heap, want int) {
 	verifAssert(len(h) == want, "NearestSet keeps as many points as the brute-force scan selects")
-	sorted := verifC20VPSorted(pts, q)
-	for i, c := range h {
+	sorted := c.sorted()
+	for i, e := range h {
 		if i >= len(sorted) {
 			break
 		}
-		verifAssert(verifC20VPStored(c.Comparable, pts), "every kept entry is a stored point (no sentinel)")
-		verifAssert(c.Dist >= 0, "kept distances are non-negative")
-		if p, ok := c.Comparable.(Point); ok {
-			verifAssertEqF(c.Dist*c.Dist, verifC20VPDist2(p, q), "kept distance is the distance of the kept point")
+		verifAssert(verifC20VPStored(e.Comparable, c.pts), "every kept entry is a stored point (no sentinel)")
+		verifAssert(e.Dist >= 0, "kept distances are non-negative")
+		if p, ok := verifC20VPCoords(e.Comparable); ok {
+			verifAssertEqF(c.key(e.Dist), c.brute(p), "kept distance is the distance of the kept point")
 		}
-		verifAssertEqF(c.Dist*c.Dist, sorted[i], "i-th kept distance is the i-th smallest brute-force distance")
+		verifAssertEqF(c.key(e.Dist), sorted[i], "i-th kept distance is the i-th smallest brute-force distance")
 	}
 }
 
-func VerifC20_VPKNearest() {
-	n, _, pts, q, t := verifC20VPSetup()
-	k := verifChoose("k", 1, n+1)
+func verifC20VPKNearest(l1 bool) {
+	c := verifC20VPSetup(l1, true, false)
+	k := verifChoose("k", 1, c.n+1)
 	keep := NewNKeeper(k)
-	t.NearestSet(keep, q)
+	c.t.NearestSet(keep, c.qc)
 	want := k
-	if n < k {
-		want = n
+	if c.n < k {
+		want = c.n
 	}
-	verifC20VPKept(keep.Heap, want, pts, q)
+	c.kept(keep.Heap, want)
 	verifReach("end")
 }
 
-func VerifC20_VPRadius() {
-	_, _, pts, q, t := verifC20VPSetup()
+func VerifC20_VPKNearest()   { verifC20VPKNearest(false) }
+func VerifC20_VPKNearestL1() { verifC20VPKNearest(true) }
+
+func verifC20VPRadius(l1 bool) {
+	c := verifC20VPSetup(l1, true, false)
 	r := verifFloat("r")
 	verifAssume(r >= 0)
 	keep := NewDistKeeper(r)
-	t.NearestSet(keep, q)
+	c.t.NearestSet(keep, c.qc)
 	want := 0
-	for _, p := range pts {
-		want += verifIteInt(verifC20VPDist2(p, q) <= r*r, 1, 0)
+	for _, p := range c.pts {
+		want += verifIteInt(c.brute(p) <= c.key(r), 1, 0)
 	}
 	verifAssert(len(keep.Heap) == want, "within-radius query returns as many points as the brute-force scan")
-	for _, c := range keep.Heap {
-		verifAssert(c.Dist <= r, "every returned point lies within the radius")
+	for _, e := range keep.Heap {
+		verifAssert(e.Dist <= r, "every returned point lies within the radius")
 	}
-	verifC20VPKept(keep.Heap, len(keep.Heap), pts, q)
+	c.kept(keep.Heap, len(keep.Heap))
+	verifReach("end")
+}
+
+func VerifC20_VPRadius()   { verifC20VPRadius(false) }
+func VerifC20_VPRadiusL1() { verifC20VPRadius(true) }
+
+// VerifC20_VPPointDistance: Point.Distance is the Euclidean distance (the
+// non-negative root of the sum of squared coordinate differences), symmetric,
+// zero on identical points.
+func VerifC20_VPPointDistance() {
+	dim := verifChoose("dim", 1, verifParam("vpdistdim", 3))
+	_, ps := verifC20VPPoints(2, dim, nil)
+	d := ps[0].Distance(ps[1])
+	verifAssert(d >= 0, "distance is non-negative")
+	verifAssertEqF(d*d, verifC20VPDist2(ps[0], ps[1]), "distance squared is the sum of squared differences")
+	verifAssertEqF(ps[1].Distance(ps[0]), d, "distance is symmetric")
+	verifAssertEqF(ps[0].Distance(ps[0]), 0, "a point is at distance zero from itself")
 	verifReach("end")
 }
 
 // VerifC20_VPDo: "Do performs fn on all values stored in the tree": every
-// point handed to New is visited exactly once.
+// value handed to New is visited exactly once (identity, not coordinates).
 func VerifC20_VPDo() {
-	n := verifChoose("n", 1, verifParam("vpn", 3))
-	dim := verifChoose("dim", 1, verifParam("vpdim", 2))
-	cs, pts := verifC20VPPoints(n, dim, nil)
-	t, err := New(cs, verifParam("vpeffort", 1), &verifC20VPSrc{max: n})
-	verifAssert(err == nil, "New succeeds for finite points")
-	verifAssert(t.Len() == n, "Len is the number of points")
-	seen := make([]int, n)
+	c := verifC20VPSetup(true, false, true)
+	seen := make([]int, c.n)
 	calls := 0
-	stopped := t.Do(func(c Comparable, depth int) bool {
+	stopped := c.t.Do(func(v Comparable, depth int) bool {
 		calls++
-		cp := c.(Point)
-		for i, p := range pts {
+		cp, _ := verifC20VPCoords(v)
+		for i, p := range c.pts {
 			seen[i] += verifIteInt(verifC20VPSame(cp, p), 1, 0)
 		}
 		return false
 	})
 	verifAssert(!stopped, "Do is not interrupted when the operation never returns true")
-	verifAssert(calls == n, "Do calls the operation once per stored point")
+	verifAssert(calls == c.n, "Do calls the operation once per stored point")
 	for i := range seen {
-		verifAssert(seen[i] == 1, "Do visits each point exactly once")
+		verifAssert(seen[i] == 1, "Do visits each value exactly once")
 	}
 	verifReach("end")
 }
